@@ -54,7 +54,7 @@ def show(t):
         if t["ty"] == "logical":
             return "." + t["v"] + "." + ("_" + t["kd"] if t["kd"] else "")
         if t["kd"] == "d":
-            return t["v"].replace("e", "d") if "e" in t["v"] else t["v"] + "<double>"
+            return t["v"].replace("e", "d") if "e" in t["v"] else t["v"] + "d0"
         return t["v"] + ("_" + t["kd"] if t["kd"] else "")
     if k == "ref":
         return t["n"]
@@ -81,6 +81,21 @@ def walk(t, parent=None, slot=None):
         for p in t["parts"]:
             for a in p["args"]:
                 yield from walk(a, t, "arg")
+
+
+def norm_real(v):
+    '''Canonical spelling of a real literal's digits: exponent without `+` and
+    leading zeros, a zero exponent dropped (1.5e0, 1.5e+00 and 1.5 spell the
+    same value; the kind is carried separately).'''
+    v = v.lower()
+    if "e" not in v:
+        return v
+    mant, exp = v.split("e", 1)
+    sign = "-" if exp.startswith("-") else ""
+    digits = exp.lstrip("+-").lstrip("0")
+    if not digits:
+        return mant
+    return mant + "e" + sign + digits
 
 
 # ----------------------------------------------------------------- tokenizer
@@ -111,8 +126,6 @@ def tokenize(text):
     and a `d` exponent letter is reported as kind "d".'''
     out = []
     for m in _TOK.finditer(text):
-        g = m.lastgroup
-        # lastgroup is the outermost alternative that matched last
         if m.group("ws") is not None:
             continue
         if m.group("char") is not None:
@@ -133,7 +146,7 @@ def tokenize(text):
             if letter == "d":
                 txt = txt.replace("d", "e", 1)
                 kind = kind or "d"
-            out.append(["lit", "real", txt, kind.lower()])
+            out.append(["lit", "real", norm_real(txt), kind.lower()])
         elif m.group("int") is not None:
             kind = m.group("ikind") or ""
             txt = m.group("int")
@@ -154,7 +167,6 @@ def tokenize(text):
             out.append(["pc", "%"])
         else:
             out.append(["bad", m.group("bad")])
-        del g
     return out
 
 
@@ -338,7 +350,7 @@ def abstract(node):
             sign = ""
             if v[0] in "+-":
                 sign, v = v[0], v[1:]
-            leaf = lit(ty, v, kd)
+            leaf = lit(ty, norm_real(v) if ty == "real" else v, kd)
             return un(sign, leaf) if sign else leaf
         return lit(ty, v, kd)
     if isinstance(node, BinaryOperation):
